@@ -960,7 +960,7 @@ func (t *tr) copyLoop(s *ast.ForStmt) ([]*Stmt, error) {
 			return bad("element position")
 		}
 	}
-	return []*Stmt{{Kind: "copyloop", Site: t.site(s, "copyloop"), E: mi.n, At: at, Step: step, K: k}}, nil
+	return []*Stmt{{Kind: "copyloop", Site: t.site(as, "copyloop"), E: mi.n, At: at, Step: step, K: k}}, nil // line of the element read: that is where Go panics
 }
 
 func (t *tr) stmt(s ast.Stmt) ([]*Stmt, error) {
